@@ -527,6 +527,16 @@ func parseContractFile(path, pkg, text string) ([]*Contract, error) {
 		}
 		return nil
 	}
+	macros := map[string]string{}
+	var macroName string
+	expand := func(t string) string {
+		for i := 0; i < 8 && strings.Contains(t, "$"); i++ {
+			for k, v := range macros {
+				t = strings.ReplaceAll(t, "$"+k+"$", v)
+			}
+		}
+		return t
+	}
 	for ln, line := range strings.Split(text, "\n") {
 		t := strings.TrimSpace(line)
 		if !strings.HasPrefix(t, "//@") {
@@ -534,8 +544,22 @@ func parseContractFile(path, pkg, text string) ([]*Contract, error) {
 		}
 		t = strings.TrimSpace(t[3:])
 		if t == "" {
+			macroName = ""
 			continue
 		}
+		if strings.HasPrefix(t, "macro ") {
+			if err := flush(); err != nil {
+				return nil, err
+			}
+			parts := strings.SplitN(strings.TrimPrefix(t, "macro "), "=", 2)
+			if len(parts) != 2 {
+				return nil, fmt.Errorf("%s:%d: bad macro", path, ln+1)
+			}
+			macroName = strings.TrimSpace(parts[0])
+			macros[macroName] = expand(strings.TrimSpace(parts[1]))
+			continue
+		}
+		t = expand(t)
 		// strip trailing comments introduced by " //"
 		if i := strings.Index(t, " // "); i >= 0 {
 			t = strings.TrimSpace(t[:i])
@@ -546,6 +570,7 @@ func parseContractFile(path, pkg, text string) ([]*Contract, error) {
 			first, rest = t[:i], t[i+1:]
 		}
 		if clauseKeywords[first] {
+			macroName = ""
 			if err := flush(); err != nil {
 				return nil, err
 			}
@@ -553,6 +578,8 @@ func parseContractFile(path, pkg, text string) ([]*Contract, error) {
 				return nil, fmt.Errorf("%s:%d: clause before func header", path, ln+1)
 			}
 			pend = &pending{kw: first, text: rest, line: ln + 1}
+		} else if macroName != "" && pend == nil {
+			macros[macroName] += " " + t
 		} else {
 			if pend == nil {
 				return nil, fmt.Errorf("%s:%d: continuation without clause", path, ln+1)
